@@ -84,6 +84,13 @@ def dna(n_min, n_max):
     return st.text(alphabet="ACGT", min_size=n_min, max_size=n_max)
 
 
+@st.composite
+def chunk_flavour(draw):
+    """how a sequence chunk is presented: the chunk may be the reverse complement of its window, and its Parent may be built by
+    seq_chunk_to_parent (ids carry the window) or by hand as in the liftover docstring (no ids)"""
+    return {"chunk_strand": draw(st.sampled_from(["+", "+", "-"])), "chunk_idiom": draw(st.sampled_from(["api", "api", "docstring"]))}
+
+
 # ------------------------------------------------------------------------------------------------
 # coding intervals
 
